@@ -193,11 +193,7 @@ theorem Trans_validateLogoutResponse_total (env : Trans.Env) (sp : Trans.Service
 /-! non-vacuity: a concrete assertion that the translated validator accepts, and one it refuses -/
 
 def exEnv : Trans.Env :=
-  { MaxClockSkew := 180000, MaxIssueDelay := 90000, StatusSuccess := "ok", timeNow := 1000,
-    errSignatureElementNotPresent := some "signature element not present",
-    validateSignature := fun _ _ => .ok none, unmarshalElement_Assertion := fun _ => .ok (default, none),
-    decryptElement := fun _ _ => .ok (none, none), unmarshalElement_Response := fun _ => .ok (default, none),
-    findChildren := fun _ _ _ => .ok ([], none) }
+  { (default : Trans.Env) with MaxClockSkew := 180000, MaxIssueDelay := 90000, StatusSuccess := "ok", timeNow := 1000 }
 def exSP : Trans.ServiceProvider :=
   { EntityID := "sp", MetadataURL := ⟨"https://sp/md"⟩, AcsURL := ⟨"https://sp/acs"⟩, SloURL := ⟨"https://sp/slo"⟩,
     IDPMetadata := some { EntityID := "idp", SPSSODescriptors := [] }, AllowIDPInitiated := false,
